@@ -306,6 +306,11 @@ func (e *LockEngine) applySummary(call *ssa.Call, callee *ssa.Function, cfgs []*
 		g.errNil[ex.errNil] = true
 	}
 	if len(groups) == 1 {
+		if call != nil && len(groups[0].errNil) == 1 && !groups[0].errNil[-1] {
+			for _, c := range cfgs {
+				c.asm[call] = groups[0].errNil[1]
+			}
+		}
 		if len(groups[0].delta) == 0 {
 			return cfgs
 		}
@@ -522,6 +527,51 @@ func (e *LockEngine) MayHeldBefore(instr ssa.Instruction, k lockKey) bool {
 		}
 	}
 	return false
+}
+
+// MinCountBefore returns the minimum relative count of k over the configurations reaching instr.
+func (e *LockEngine) MinCountBefore(instr ssa.Instruction, k lockKey) int {
+	b := instr.Block()
+	fn := b.Parent()
+	e.Summary(fn)
+	min := 99
+	for _, cfg0 := range sortedCfgs(e.blockIn[fn][b]) {
+		cfgs := []*lockCfg{cfg0.clone()}
+		for _, x := range b.Instrs {
+			if x == instr {
+				break
+			}
+			switch x.(type) {
+			case *ssa.If, *ssa.Jump, *ssa.Return, *ssa.Panic:
+			default:
+				cfgs = e.stepInstr(fn, x, cfgs)
+			}
+		}
+		for _, c := range cfgs {
+			if c.cnt[k] < min {
+				min = c.cnt[k]
+			}
+		}
+	}
+	if min == 99 {
+		return 0
+	}
+	return min
+}
+
+// ReleasesOnly: every exit of fn has released k once more than it acquired it (hand-over callee:
+// the caller holds k at entry).
+func (e *LockEngine) ReleasesOnly(fn *ssa.Function, k lockKey) bool {
+	s := e.Summary(fn)
+	if len(s.exits) == 0 {
+		return false
+	}
+	for _, ex := range s.exits {
+		if ex.delta[k] != -1 {
+			return false
+		}
+	}
+	return true
 }
 
 // MustAcquire returns the locks fn acquires on every entry->exit path (directly or through
